@@ -15,6 +15,8 @@ import (
 	"os/exec"
 	"path/filepath"
 	"sort"
+	"strings"
+	"sync"
 
 	"github.com/jf-tech/omniparser/idr"
 
@@ -63,6 +65,66 @@ func child(path string) {
 	if err := os.WriteFile(path+".out", ob, 0o644); err != nil {
 		fmt.Fprintln(os.Stderr, err)
 		os.Exit(2)
+	}
+}
+
+// sameSchemaConcurrent: several transforms created from ONE Schema object run in parallel, each
+// with its own external properties and its own input; every one must give its solo transcript.
+func sameSchemaConcurrent(o *vh.Opts, r *vh.Rng, sum *vh.Summary, fmts []pipe.Fmt) {
+	for round := 0; round < 3; round++ {
+		f := fmts[[]int{1, 5, 6}[round]]
+		env := pipe.Env{Header: true, Ctx: "H1"}
+		pipe.OnlyMust = true
+		schema, feats := f.SchemaWith(r, []string{"multi-arg", "typed-externals", "plain", "template-dynamic-anchors"}, nil, env)
+		pipe.OnlyMust = false
+		comp, err := pipe.Compile(schema)
+		if err != nil {
+			sum.Fail("generated schema rejected by NewSchema", map[string]string{"format": f.Name, "schema": schema}, err.Error())
+			continue
+		}
+		const W = 8
+		inputs := make([][]byte, W)
+		exts := make([]map[string]string, W)
+		solo := make([]pipe.Transcript, W)
+		for w := 0; w < W; w++ {
+			recs := make([]pipe.Rec, 250)
+			for i := range recs {
+				recs[i] = pipe.GenRec(r, f, true)
+				recs[i].A = fmt.Sprintf("w%d-%d", w, i)
+				recs[i].Nest = false
+			}
+			inputs[w] = f.Render(env, recs)
+			exts[w] = pipe.GenExt(r.Pick)
+			exts[w]["ext_s"] = fmt.Sprintf("owner%d", w)
+			exts[w]["ext_i"] = fmt.Sprint(1000 + w)
+			solo[w] = comp.RunUnretained(inputs[w], exts[w])
+		}
+		vh.Current(o, map[string]interface{}{"probe": "same Schema, concurrent transforms", "schema": schema, "workers": W})
+		par := make([]pipe.Transcript, W)
+		var wg sync.WaitGroup
+		for w := 0; w < W; w++ {
+			wg.Add(1)
+			go func(w int) {
+				defer wg.Done()
+				par[w] = comp.RunUnretained(inputs[w], exts[w])
+			}(w)
+		}
+		wg.Wait()
+		sum.Hist("same-schema-concurrent:" + f.Name)
+		for w := 0; w < W; w++ {
+			if bad := pipe.CheckOutputs(feats, exts[w], par[w]); len(bad) > 0 {
+				sum.Fail("output relation violated in a transform run concurrently with others of the same Schema: "+bad[0],
+					pipe.Case{Format: f.Name, Schema: schema, InputHex: fmt.Sprintf("%x", inputs[w]), Ext: exts[w]}, map[string]interface{}{"violations": bad, "worker": w})
+				break
+			}
+			if !par[w].Equal(solo[w]) {
+				i := pipe.FirstDiff(par[w], solo[w])
+				sum.Fail(fmt.Sprintf("a transform run concurrently with %d others created from the SAME Schema differs from its solo transcript (first difference at result %d)", W-1, i),
+					pipe.Case{Format: f.Name, Schema: schema, InputHex: fmt.Sprintf("%x", inputs[w]), Ext: exts[w]},
+					map[string]interface{}{"worker": w, "solo": entryAt(solo[w], i), "concurrent": entryAt(par[w], i)})
+				break
+			}
+		}
 	}
 }
 
@@ -169,7 +231,7 @@ func main() {
 		}
 	}
 
-	total := o.Count(350, 30000)
+	total := o.Count(300, 30000)
 	nproc := o.Count(20, 200)
 	if o.N > 0 {
 		nproc = 4
@@ -342,7 +404,7 @@ func main() {
 	// ---- big cases: many declarations incl. ancestor-anchored objects, hundreds of records; the
 	// process-wide node ID counter at the start of the transform differs widely between the
 	// in-process runs and the fresh process each of them is compared with ----
-	nbig := o.Count(16, 200)
+	nbig := o.Count(12, 200)
 	if o.N > 0 {
 		nbig = 3
 	}
@@ -392,6 +454,77 @@ func main() {
 		big = append(big, pending{cs, t1})
 	}
 
+	// ---- schema pairs: A and B differ in exactly ONE const argument of a custom function and are
+	// run over the same input, A then B here, B then A in a fresh process: whichever runs first
+	// must not decide the other's output (process-wide memos inside custom functions) ----
+	npairs := o.Count(24, 400)
+	if o.N > 0 {
+		npairs = 3
+	}
+	var pairs [][2]pending
+	dts := []string{"2021-03-04 05:06:07", "2020-12-31 23:59:59", "1999-01-01 00:00:00", "2021-03-04 05:06:07", "not a date", ""}
+	for b := 0; b < npairs; b++ {
+		f := fmts[[]int{0, 1, 2, 5, 6}[r.Pick(5)]] // formats whose field c can hold a date-time text
+		env := pipe.Env{Header: r.Chance(0.5), Trailer: r.Chance(0.5), Ctx: "H1"}
+		variants := [][2]string{{"true", "false"}, {"America/New_York", "UTC"}, {"Asia/Tokyo", ""}, {"SECOND", "MILLISECOND"}, {"pre-", "PRE-"}}
+		which := r.Pick(len(variants))
+		mk := func(v string) string {
+			ltz, from, to, unit, pre := "false", "", "", "SECOND", "pre-"
+			switch which {
+			case 0:
+				ltz = v
+			case 1:
+				from = v
+			case 2:
+				to = v
+			case 3:
+				unit = v
+			case 4:
+				pre = v
+			}
+			ex := []string{
+				`"dt1": {"custom_func":{"name":"dateTimeLayoutToRFC3339","ignore_error":true,"args":[{"xpath":"c"},{"const":"2006-01-02 15:04:05"},{"const":"` + ltz + `"},{"const":"` + from + `"},{"const":"` + to + `"}]}}`,
+				`"dt2": {"custom_func":{"name":"dateTimeToRFC3339","ignore_error":true,"args":[{"xpath":"c"},{"const":"` + from + `"},{"const":"` + to + `"}]}}`,
+				`"dt3": {"custom_func":{"name":"dateTimeToEpoch","ignore_error":true,"args":[{"xpath":"c"},{"const":"` + from + `"},{"const":"` + unit + `"}]}}`,
+				`"cc": {"custom_func":{"name":"concat","args":[{"const":"` + pre + `"},{"xpath":"a","keep_empty_or_null":true}]}}`,
+				`"uu": {"custom_func":{"name":"uuidv3","args":[{"custom_func":{"name":"concat","args":[{"const":"` + pre + `"},{"xpath":"c","keep_empty_or_null":true}]}}]}}`,
+				`"lo": {"custom_func":{"name":"lower","args":[{"custom_func":{"name":"concat","args":[{"const":"` + pre + `"},{"xpath":"c","keep_empty_or_null":true}]}}]}}`,
+			}
+			rr := vh.NewRng(int64(b)*7919 + o.Seed) // the same declarations otherwise
+			pipe.OnlyMust = true
+			sch, _ := f.SchemaWith(rr, []string{"plain", "cast"}, ex, env)
+			pipe.OnlyMust = false
+			return sch
+		}
+		sa, sb := mk(variants[which][0]), mk(variants[which][1])
+		n := r.Between(3, 8)
+		recs := make([]pipe.Rec, n)
+		for i := range recs {
+			recs[i] = pipe.GenRec(r, f, true)
+			recs[i].C = dts[r.Pick(len(dts))]
+			if strings.HasPrefix(recs[i].C, "2021") {
+				// values no other pair (and nothing else in this process) has evaluated before
+				recs[i].C = fmt.Sprintf("2021-03-%02d %02d:%02d:07", 1+b%28, (b/28)%24, r.Pick(3))
+			}
+		}
+		in := f.Render(env, recs)
+		ca, cb := pipe.NewCase(f.Name, sa, in), pipe.NewCase(f.Name, sb, in)
+		ca.Ext, cb.Ext = pipe.GenExt(r.Pick), nil
+		cb.Ext = ca.Ext
+		vh.Current(o, map[string]interface{}{"pair": []pipe.Case{ca, cb}})
+		pipe.Watch("pair " + f.Name)
+		ta := runOnce(ca) // A first, then B
+		tb := runOnce(cb)
+		pipe.Unwatch()
+		sum.Hist("schema-pair:" + []string{"layout_tz", "from_tz", "to_tz", "epoch-unit", "concat-prefix"}[which])
+		canon, _ := json.Marshal([]pipe.Case{ca, cb})
+		sum.Count(string(canon), true)
+		cw.Add("C15Det "+coqRuns([]pipe.Transcript{ta, ta}), map[string]interface{}{"kind": "schema-pair", "format": f.Name})
+		pairs = append(pairs, [2]pending{{ca, ta}, {cb, tb}})
+	}
+
+	sameSchemaConcurrent(o, r, sum, fmts)
+
 	// ---- fresh processes ----
 	self, err := os.Executable()
 	if err != nil {
@@ -401,9 +534,12 @@ func main() {
 			nproc = len(pend)
 		}
 		sum.Extra["fresh_processes"] = nproc
-		for p := 0; p < nproc+len(big); p++ {
+		for p := 0; p < nproc+len(big)+len(pairs); p++ {
 			var batch []pending
-			if p >= nproc {
+			if p >= nproc+len(big) {
+				pr := pairs[p-nproc-len(big)]
+				batch = []pending{pr[0], pr[1]} // the child runs its batch in reverse order: B first, then A
+			} else if p >= nproc {
 				batch = []pending{big[p-nproc]} // a big case alone in its fresh process (counter starts at 0)
 			} else {
 				for i := p; i < len(pend); i += nproc {
